@@ -498,19 +498,37 @@ def partitions(tier, seed):
                        '%s = n for every integer 0 <= n <= 30 (0 included; str() realizes the int) reads back as str(n)' % ['retry_after', 'content_length', 'set_header'][which]))
     cshapes = [(0, 0, 0, '', ''), (1, 2, 1, 'd.x', '/p'), (6, 1, 0, '', '/'), (2, 0, 1, '', ''), (3, 0, 0, '', ''), (4, 0, 1, '', ''),
                (5, 0, 0, '', ''), (0, 3, 1, 'x', ''), (1, 4, 0, '', '')]
+    VALPRE = "all((33 <= ord(c) <= 126 and c not in (',', ';', chr(92), chr(34))) for c in value) or any(ord(c) > 127 for c in value)"
     for si, (ci, ei, flag, dom, pth) in enumerate(cshapes):
         for asgi in ((si % 2,) if q else (0, 1)):
-            P.append(_part('cookie_%s_name%d_exp%d_f%d' % ('asgi' if asgi else 'wsgi', ci, ei, flag),
-                           'value: str, ma_kind: int, max_age: int, secure: int, by_default: bool, ssi: int',
-                           ['len(value) <= 2', '0 <= ma_kind <= 3', '0 <= max_age <= 2', '0 <= secure <= 2', '0 <= ssi < %d' % len(SAMESITE),
-                            "all((33 <= ord(c) <= 126 and c not in (',', ';', chr(92), chr(34))) for c in value) or any(ord(c) > 127 for c in value)"],
-                           'cookie_case(%d, value, ma_kind, max_age, secure, by_default, %s, ssi, %s, %r, %r, %d, %d)' % (
-                               ci, bool(flag), bool(1 - flag), dom, pth, ei, asgi),
-                           200 if q else 900,
-                           'set_cookie(name=%r, expires menu #%d, http_only=%s, partitioned=%s, domain=%r, path=%r): value <= 2 free characters '
-                           '(cookie-octets or non-ASCII), max_age int/float/str in 0..2 (0 included), secure tri-state x '
-                           'secure_cookies_by_default, same_site menu; Set-Cookie parsed by an RFC 6265 reader; echoed back through '
-                           'Request.cookies' % (CNAMES[ci], ei, bool(flag), bool(1 - flag), dom, pth)))
+            side = 'asgi' if asgi else 'wsgi'
+            tail = '%s, %%s, %s, %r, %r, %d, %d' % (bool(flag), bool(1 - flag), dom, pth, ei, asgi)
+            shape = 'set_cookie(name=%r, expires menu #%d, http_only=%s, partitioned=%s, domain=%r, path=%r)' % (
+                CNAMES[ci], ei, bool(flag), bool(1 - flag), dom, pth)
+            # (a) the value is free, the option arguments are one fixed combination (rotating with the shape)
+            mk, mx, sc, bd, ss = si % 4, (si + 1) % 3, (si + 2) % 3, bool(si % 2), (si * 2 + 1) % len(SAMESITE)
+            L = 2 if q else 3
+            P.append(_part('cookie_val_%s_name%d_exp%d_f%d' % (side, ci, ei, flag), 'value: str', ['len(value) <= %d' % L, VALPRE],
+                           'cookie_case(%d, value, %d, %d, %d, %s, %s)' % (ci, mk, mx, sc, bd, tail % ss), 150 if q else 600,
+                           '%s: value <= %d free characters (cookie-octets or non-ASCII), options fixed at max_age kind %d/%d, secure %r, '
+                           'secure_cookies_by_default %s, same_site %r; Set-Cookie parsed by an RFC 6265 reader and echoed back through '
+                           'Request.cookies.  The value x options cross product is in cookie_joint_* (thorough)' % (
+                               shape, L, mk, mx, [None, True, False][sc], bd, SAMESITE[ss])))
+            # (b) the option arguments are free, the value is one of two fixed strings
+            P.append(_part('cookie_opt_%s_name%d_exp%d_f%d' % (side, ci, ei, flag),
+                           'vi: int, ma_kind: int, max_age: int, secure: int, by_default: bool, ssi: int',
+                           ['0 <= vi <= 1', '0 <= ma_kind <= 3', '0 <= max_age <= 2', '0 <= secure <= 2', '0 <= ssi < %d' % len(SAMESITE)],
+                           "cookie_case(%d, ('', 'v1')[vi], ma_kind, max_age, secure, by_default, %s)" % (ci, tail % 'ssi'),
+                           150 if q else 600,
+                           "%s: value '' or 'v1', max_age int/float/str in 0..2 (0 included), secure tri-state x "
+                           'secure_cookies_by_default, same_site menu of %d; every attribute set against the request' % (shape, len(SAMESITE))))
+            if not q:
+                P.append(_part('cookie_joint_%s_name%d_exp%d_f%d' % (side, ci, ei, flag),
+                               'value: str, ma_kind: int, max_age: int, secure: int, by_default: bool, ssi: int',
+                               ['len(value) <= 1', '0 <= ma_kind <= 3', '0 <= max_age <= 2', '0 <= secure <= 2',
+                                '0 <= ssi < %d' % len(SAMESITE), VALPRE],
+                               'cookie_case(%d, value, ma_kind, max_age, secure, by_default, %s)' % (ci, tail % 'ssi'), 900,
+                               '%s: value <= 1 free character x all option combinations' % shape))
     for asgi in (0, 1):
         P.append(_part('unset_%s' % ('asgi' if asgi else 'wsgi'), 'ci: int, dp: int, after_set: bool',
                        ['ci in (0, 1, 6)', '0 <= dp <= 3'],
